@@ -13,6 +13,7 @@ import (
 	"context"
 	"encoding/json"
 	"fmt"
+	"github.com/milvus-io/milvus/pkg/mq/msgstream"
 	"net"
 	"net/http"
 	"os"
@@ -418,8 +419,8 @@ func (x *c18Exec) replicate(name string, wantAck bool) bool {
 	sent, rounds := 0, 0
 	for time.Now().Before(deadline) {
 		if sent < 3 {
-			m := src.InsertMsg(coll, 0, coll.Parts[0], base+int64(sent), src.TS(), 2)
-			if _, err := src.Send(c18PCh[0], m); err != nil {
+			uid := base + int64(sent)
+			if _, _, err := src.SendStamped(c18PCh[0], func(ts uint64) msgstream.TsMsg { return src.InsertMsg(coll, 0, coll.Parts[0], uid, ts, 2) }); err != nil {
 				x.note("send: %v", err)
 				return false
 			}
